@@ -253,9 +253,10 @@ InvFrameAttributes == Mode = "cfg" =>
 \* a call is expected to return is the same wherever it stands
 Session == SessionOf(Len(Thresholds), WithW, HashA + 7 * Seed)
 InvSession ==
-  /\ SessionWellFormed(Session, Len(Thresholds), WithW)
-  /\ \A p, q \in 1..Len(Session) : Session[p] = Session[q] => WithObs(Session[p]) = WithObs(Session[q])
-  /\ \A p \in 1..Len(Session) : KnownCall(Session[p], Len(Thresholds))
+  LET s == TLCEval(Session) IN
+  /\ SessionWellFormed(s, Len(Thresholds), WithW)
+  /\ \A p, q \in 1..Len(s) : s[p] = s[q] => WithObs(s[p]) = WithObs(s[q])
+  /\ \A p \in 1..Len(s) : KnownCall(s[p], Len(Thresholds))
 InvW3jIndexSet == Len(W3jSeq(l)) = 3 * l * l + 3 * l + 1
                   /\ \A k \in 1..Len(W3jSeq(l)) : W3jSeq(l)[k] \in W3jIndex(l)
                   /\ Cardinality(Range(W3jSeq(l))) = Len(W3jSeq(l))
